@@ -29,7 +29,7 @@ def run(ctx):
     for i, v in enumerate(vecs):
         # style 0 minimal/symbols/plain literals, 1 keyword synonyms + varied numeric spellings,
         # 2 fully braced, 3 leaves through variables, 4 keywords via 令结果
-        styles = [0, 2, 1 + (i + ctx.seed) % 7] if ctx.tier == "quick" else [0, 1, 2, 3, 4, 5, 6, 7]
+        styles = [0, 2, 1 + (i + ctx.seed) % 8] if ctx.tier == "quick" else [0, 1, 2, 3, 4, 5, 6, 7, 8]
         c = dict(v); c.pop("k"); c["id"] = i; c["styles"] = styles
         cases.append(c)
     res = common.run_harness(ctx, znh, "expr", cases, timeout=3000)
